@@ -460,8 +460,12 @@ def main(argv=None):
         extra_nt = 0
 
     for k, n in merged["known_hits"].items():
-        line = "KNOWN-FINDING: property=%s %s [%s] (%d generated cases)" % (pid, _what(known, k), k, n)
-        known_lines.append(line)
+        tag = "[%s]" % k
+        hit = [i for i, ln in enumerate(known_lines) if tag in ln]
+        if hit:          # one line per listed finding: the probe's line also carries the generated-case count
+            known_lines[hit[0]] += " (+ %d generated cases)" % n
+        else:
+            known_lines.append("KNOWN-FINDING: property=%s %s [%s] (%d generated cases)" % (pid, _what(known, k), k, n))
     for line in known_lines:
         print(line)
 
